@@ -77,6 +77,17 @@ pub fn run(cx: &mut Ctx) {
         check_prog(cx, &p, &[Mode::Seq, Mode::Par(2)], &o);
     }
 
+    // round 6 — VERY long element-wise chains (one fused block of 100..600 ordinary steps, not value-only: no reorder):
+    // every step must survive fusion exactly once and in order, however long the block gets (a cap on the block size,
+    // a chunked fusion loop, a recursion limit would lose or repeat a step). `add c` / `neg` alternate with distinct
+    // constants, so losing, repeating or moving ANY single step changes every output value.
+    for (i, len) in [100usize, 127, 128, 129, 130, 200, 255, 256, 257, 300, 513, 600].into_iter().enumerate() {
+        let steps: Vec<Step> = (0..len).map(|j| if j % 3 == 1 { Step::Map(Fn_::Neg) } else { Step::Map(Fn_::Add(1 + (j as i64 * 7 + i as i64) % 23)) }).collect();
+        let p = Prog { shape: Shape::T, src: (0..4).map(|x| V::I(x * 5 - 3)).collect(), steps };
+        cx.count("program:very-long-elementwise-chain");
+        check_prog(cx, &p, &[Mode::Seq, Mode::Par(3)], &o);
+    }
+
     // random element-wise programs; chunk functions that look across their slice only sequentially
     let rounds = cx.budget(500, 12000);
     for i in 0..rounds {
